@@ -355,6 +355,9 @@ fn check_c02_call(ctx: &mut Ctx, client: &StatsdClient, cfg: &ClientCfg, sink: &
                         ctx.rep.obs("rates_checked", 1);
                         ctx.rep.distinct(&format!("rate|{}", num_class(&Num::F(rate))));
                     }
+                } else {
+                    // a supplied sampling rate that does not reach the wire at all is lost, whatever its value
+                    ctx.violation("C02", "numeral", "rate-missing", format!("sampling rate {:e} was supplied but the line has no |@ section", rate), trace());
                 }
             }
             ctx.rep.obs("value_fields_checked", fields.len() as u64);
